@@ -112,6 +112,9 @@ type profile struct {
 	// proposal, campaign) is stepped first and Advance follows it, as etcd's node.run does between `readyc <- rd` and `<-advancec` (the application is
 	// still persisting while the node goroutine keeps receiving).  Added after the seeded change C15-unstable-inplace-truncate: a conflicting append that
 	// arrives in that window rewrote the outstanding Ready's entries in place.
+	sized                                                             bool // entries of very different sizes (payload left-padded with zeros) under MaxSizePerMsg = 64 bytes: the size cut of a catch-up append falls between
+	// a small and a large stable entry while a freshly proposed entry is still unstable (seeded change C15-slice-hole-after-maxsize-cut); with deferAdv the
+	// LEADER's handled Ready may also stay un-advanced across deliveries that cannot grow its log (anything but a proposal)
 	script                                                            bool // deferAdv only, 5 nodes: the schedule starts with a scripted prologue (scriptConflictInsideReady), then continues at random
 	prevote                                                           bool // Config.PreVote (+CheckQuorum): library features raftexample leaves off; outside the model, safety predicates only
 }
@@ -131,6 +134,7 @@ var profiles = []profile{
 	{name: "member-batch-partition", wTick: 22, wDeliver: 50, wDrop: 4, wPropose: 8, wCampaign: 6, wCrash: 2, wCompact: 1, pDup: 0.1, partition: 25, pHeal: 0.35, member: 12, batch: true},
 	{name: "defer-churn", wTick: 20, wDeliver: 48, wDrop: 5, wPropose: 12, wCampaign: 8, wCrash: 3, wCompact: 2, pDup: 0.15, deferAdv: true},
 	{name: "defer-partition", wTick: 24, wDeliver: 50, wDrop: 3, wPropose: 14, wCampaign: 4, wCrash: 2, wCompact: 2, pDup: 0.1, partition: 30, pHeal: 0.4, deferAdv: true},
+	{name: "defer-sized", wTick: 20, wDeliver: 55, wDrop: 3, wPropose: 16, wCampaign: 2, wCrash: 2, wCompact: 1, pDup: 0.05, lag: true, deferAdv: true, sized: true},
 	{name: "defer-script", wTick: 22, wDeliver: 52, wDrop: 3, wPropose: 12, wCampaign: 3, wCrash: 2, wCompact: 2, pDup: 0, partition: 45, pHeal: 0.4, deferAdv: true, script: true},
 	{name: "reorder", wTick: 12, wDeliver: 40, wDrop: 2, wPropose: 10, wCampaign: 5, wCrash: 2, wCompact: 2, pDup: 0.5},
 	{name: "prevote-reorder", wTick: 14, wDeliver: 38, wDrop: 3, wPropose: 8, wCampaign: 10, wCrash: 2, wCompact: 1, pDup: 0.5, prevote: true},
@@ -159,6 +163,7 @@ type sim struct {
 	evNo    int
 	bad     bool
 	ids     []uint64
+	propNext bool  // the event about to run delivers a forwarded proposal (it can grow a leader's log)
 	forced  string // profile deferAdv: key of the pool message to deliver next (a newer-term append that conflicts inside a Ready just left un-advanced)
 }
 
@@ -180,6 +185,9 @@ func (s *sim) newRawNode(nd *simNode) *raft.RawNode {
 	}
 	if s.prof.paged {
 		c.MaxSizePerMsg = 0 // "0 for at most one entry per message"; every other setting stays raftexample's
+	}
+	if s.prof.sized {
+		c.MaxSizePerMsg = 64
 	}
 	if s.prof.applyPaged {
 		c.MaxCommittedSizePerReady = 1
@@ -609,7 +617,9 @@ func (s *sim) drain(nd *simNode) (out []pb.Message, post []string) {
 				}
 			}
 		}
-		if s.prof.deferAdv && s.n > 1 && nd.rn.BasicStatus().RaftState == raft.StateFollower && raft.IsEmptySnap(rd.Snapshot) && (force != "" || len(rd.Entries) >= 2 || s.rng.Intn(3) == 0) {
+		st := nd.rn.BasicStatus().RaftState
+		ldr := s.prof.sized && st == raft.StateLeader && len(rd.Entries) > 0 && len(rd.CommittedEntries) == 0
+		if s.prof.deferAdv && s.n > 1 && (st == raft.StateFollower || ldr) && raft.IsEmptySnap(rd.Snapshot) && (force != "" || len(rd.Entries) >= 2 || s.rng.Intn(3) == 0 || ldr) {
 			if force != "" {
 				s.forced = force
 				s.stats["conflicting-append-forced-into-pending-ready"]++
@@ -681,7 +691,24 @@ func (s *sim) event(kind string, i int, call func() []string) {
 				s.bad = true
 			}
 		}()
-		inputs := call()
+		var pre []string
+		var early []pb.Message
+		if nd.pendRd != nil && nd.rn != nil && kind != "restart" && ((kind != "deliver" && kind != "tick") || s.propNext) && nd.rn.BasicStatus().RaftState == raft.StateLeader {
+			// a LEADER's un-advanced Ready is advanced BEFORE an input that can grow its log (proposal, campaign, membership change, compaction): the model's
+			// selfAck acknowledges the whole log, the real Advance only that Ready's last index - they coincide while the log has not grown in between
+			rd := nd.pendRd
+			ack := len(rd.Entries) > 0 && nd.rn.BasicStatus().Lead == nd.id
+			nd.pendRd, nd.pendAck = nil, false
+			nd.rn.Advance(*rd)
+			s.stats["deferred-advance-leader-flushed"]++
+			if ack {
+				pre = append(pre, "selfAck")
+			}
+			o, post := s.drain(nd)
+			pre = append(pre, post...)
+			early = o
+		}
+		inputs := append(pre, call()...)
 		if nd.pendRd != nil && nd.rn != nil && kind != "restart" {
 			// the Ready handed out before this input is advanced only now
 			rd := nd.pendRd
@@ -695,6 +722,7 @@ func (s *sim) event(kind string, i int, call func() []string) {
 		}
 		out, post := s.drain(nd)
 		inputs = append(inputs, post...)
+		out = append(early, out...)
 		proj, _, _ := s.projection(nd)
 		outs := s.addToPool(out)
 		o := "-"
@@ -920,7 +948,11 @@ func (s *sim) doPropose(i int) {
 	p := s.nextPid
 	s.nextPid++
 	s.event("propose", i, func() []string {
-		err := nd.rn.Propose([]byte(strconv.FormatUint(p, 10)))
+		payload := []byte(strconv.FormatUint(p, 10))
+		if s.prof.sized && s.rng.Intn(3) == 0 {
+			payload = []byte(fmt.Sprintf("%050d", p)) // a large entry: the same proposal id, left-padded
+		}
+		err := nd.rn.Propose(payload)
 		if err != nil && !errors.Is(err, raft.ErrProposalDropped) {
 			panic(fmt.Sprintf("harness: Propose: %v", err))
 		}
@@ -989,6 +1021,8 @@ func (s *sim) deliverAt(k int) {
 	nd := s.nodes[i]
 	txt := fmtMsg(pm.m)
 	s.stats["recv-"+strings.SplitN(txt, ",", 2)[0]]++
+	s.propNext = pm.m.Type == pb.MsgProp
+	defer func() { s.propNext = false }()
 	s.event("deliver", i, func() []string {
 		m := pm.m
 		if m.Type == pb.MsgProp {
